@@ -285,6 +285,55 @@ def budget_case(args):
     return out
 
 
+def gaps_case(args):
+    """N ack-eliciting packets using every other packet number, E's ACKs never acknowledged:
+    the ACK frame E owes grows by one range per packet (peer-driven, unbounded)."""
+    state, epoch, n = args
+    bot = make_bot(state)
+    out = {"state": state, "epoch": epoch, "n": 0, "viol": None, "max_ranges": 0}
+    try:
+        base = bot.next_pn + 1
+        for i in range(n):
+            r = bot.send([{"t": "PING"}], epoch=epoch, pn=base + 2 * i)
+            out["n"] += 1
+            for f in r.frames("ACK"):
+                out["max_ranges"] = max(out["max_ranges"], len(f["ranges"]))
+            if i % 7 == 0:
+                bot.advance(0.002)
+            if bot.E.conn._state.name != "CONNECTED":
+                break
+        for _ in range(3):
+            t = bot.E.conn.get_timer()
+            if t is None or t == bot.E.conn._close_at:
+                break
+            r = bot.timer()
+            for f in r.frames("ACK"):
+                out["max_ranges"] = max(out["max_ranges"], len(f["ranges"]))
+    except core.HarnessError:
+        raise
+    except Exception as e:  # noqa
+        entry, inner = classify(e)
+        if inner is None:
+            raise
+        out["viol"] = ({"monitor": "api_exception", "exc": type(e).__name__, "where": inner, "entry": entry,
+                        "role": STATES[state][0], "input": "alternating_packet_numbers"},
+                       "%s: %s in %s (API entry %s) after %d ack-eliciting %s packets with every other packet "
+                       "number in state %s" % (type(e).__name__, e, inner, entry, out["n"], epoch, state))
+    return out
+
+
+def run_gaps(ctx):
+    tasks = [("server_connected", "1rtt", 700), ("client_connected", "1rtt", 700),
+             ("server_after_initial", "handshake", 700), ("client_after_server_flight", "handshake", 300)]
+    res = core.pmap(gaps_case, tasks)
+    for r in res:
+        if r["viol"]:
+            ctx.violation(r["viol"][0], r["viol"][1], {"part": "gaps", "state": r["state"], "epoch": r["epoch"]})
+    ctx.part("alternating_packet_numbers", evaluations=sum(r["n"] for r in res), states=len(res),
+             transitions=sum(r["n"] for r in res), distinct_nontrivial=len(set(r["max_ranges"] for r in res)) + 1,
+             max_ack_ranges_seen=max(r["max_ranges"] for r in res))
+
+
 def run_budget(ctx):
     tasks = [(L, trig) for L in range(0, 44) for trig in ("handshake_done", "unknown", "crypto_garbage")]
     res = core.pmap(budget_case, tasks, chunksize=4)
@@ -468,6 +517,7 @@ def run(ctx):
     if len(outcomes) < 6:
         raise core.HarnessError("vacuous: %d distinct outcomes" % len(outcomes))
     run_budget(ctx)
+    run_gaps(ctx)
     # hostile TLS messages with valid MACs from a key-holding QUIC-level adversary
     from checks import c05_tls
 
@@ -491,6 +541,13 @@ def run(ctx):
 
 def replay(ctx, obj):
     rp = obj["replay"]
+    if rp.get("part") == "gaps":
+        r = gaps_case((rp["state"], rp["epoch"], 700))
+        print({k: v for k, v in r.items() if k != "viol"})
+        if r["viol"]:
+            print("VIOLATION property=C05 replay=(replayed): %s" % r["viol"][1])
+            return 1
+        return 0
     if rp.get("part") == "budget":
         r = budget_case((rp["L"], rp["trig"]))
         print(r)
